@@ -423,7 +423,9 @@ pub fn run(ctx: Ctx) -> ! {
         plans = vec![(0, 3, 3, 0, 0), (1, 3, 3, 0, 0), (2, 3, 3, 0, 0), (3, 3, 2, 0, 0), (3, 3, 3, 2, 2), (4, 4, 2, 2, 0)];
     }
     let mut plan_notes = vec![];
+    let mut capped: Vec<String> = vec![];
     const BLOCK: u64 = 4096;
+    const WALL_CAP_S: f64 = 1000.0;
     for (n, k, max_len, mode, skip_len) in plans.iter().copied() {
         let mut alphabet: Vec<u8> = (1..=k as u8).collect();
         alphabet.push(UNKNOWN);
@@ -439,6 +441,10 @@ pub fn run(ctx: Ctx) -> ! {
         ));
         for hashes in &lists {
             for root_is_sub in [false, true] {
+                if ctx.elapsed_s() > WALL_CAP_S {
+                    capped.push(format!("n={n}, children lists <= {max_len}, hash list {hashes:?}, root {}", if root_is_sub { "subintent" } else { "transaction" }));
+                    continue;
+                }
                 par_range(&ctx, total.div_ceil(BLOCK), 1, |blk, l| {
                     let (mut c_struct, mut c_nontrivial, mut c_well, mut c_yield) = (0u64, 0u64, 0u64, 0u64);
                     for idx in blk * BLOCK..((blk + 1) * BLOCK).min(total) {
@@ -564,12 +570,15 @@ pub fn run(ctx: Ctx) -> ! {
     cov.insert("yield_assignments".into(), json!(yield_cases.load(Ordering::Relaxed)));
     cov.insert("chain_cases".into(), json!(chain_cases));
     cov.insert("plans".into(), json!(plan_notes));
+    if !capped.is_empty() {
+        ctx.note(format!("wall cap {WALL_CAP_S}s hit; sub-sweeps skipped (everything else completed): {capped:?}"));
+    }
     cov.insert("max_subintent_depth_values".into(), json!("generic: 0,1,2,3,4; chains: 0..=7 and usize::MAX"));
     ctx.finish(
         Level::Exploration,
         "a case is one (root kind, max_subintent_depth, subintent hash list, children list per intent, yield counts) evaluated by the real validate_intents_and_structure and by the reference; non-trivial = distinct structures (root kind x hash list x children assignment) that the reference lets past 'pairwise distinct' and 'every declared child present'",
         nontrivial.load(Ordering::Relaxed),
-        true,
+        capped.is_empty(),
         cov,
         &[
             "mock intents: validate_intent always succeeds and reports one child_yields entry per declared child, as the real summaries do",
